@@ -63,6 +63,11 @@ def handle (st : St) (n : Nat) (line : String) : Result := Id.run do
         let f2 := fail f.st n "C17" s!"configured log {(g "log").getD "?"} has a feeder type but is never fed after start-up: the feeder list and the witness map do not describe the same logs"
         return { st := f2.st, out := f.out ++ f2.out }
       return f
+  | "RACE" :: rest =>
+    let g := field rest
+    let rep := ((g "first").bind hexOfString).map (fun b => String.fromUTF8! (ByteArray.mk b.toArray)) |>.getD "?"
+    let where_ := ((rep.splitOn "\n").filter (fun l => (l.splitOn "transparency-dev/witness").length > 1 && (l.splitOn "zzverif").length == 1)).take 3
+    return fail (st.bump "race.reports") n "C05" s!"the Go race detector reported {(g "reports").getD "?"} data race(s) while concurrent requests ran on one Witness: {" | ".intercalate (where_.map (fun l => l.trimAscii.toString))}"
   | "OMD" :: rest =>
     let g := field rest
     let st := st.bump "omni.distributor"
